@@ -42,7 +42,7 @@ CLAIMED = {
              "number of tasks and EVERY schedule, results are never stored in a wrong position, a finished call returns the serial list or raises "
              "the serial exception (lowest failing index), a step is always enabled while the caller waits and every step decreases a measure "
              "(no blocking). Completion orders and failing positions are enumerated on the real ParallelMap with gate files; a grid built with "
-             "number_of_processors=2 is compared bit for bit with the serial grid.",
+             "number_of_processors=2 is compared bit for bit with the serial grid. The structural facts the model rests on (worker catches and always puts one result per task, tasks enqueued with their index, n results taken and stored by index in a pre-allocated list, first error in index order re-raised afterwards, the exception wrapper tests with the queue's own serializer) are REGENERATED from parallel_map.py and are premises proved by reflexivity; a transport model shows that every exception report is then delivered (and which are lost by a laxer test). Scenarios include exceptions the standard pickle cannot carry (local class, unpicklable attribute, two-argument constructor) and the re-used object; a non-orthogonal double null without guard cells (contours extended inside the workers) is compared for np=1/2.",
         note="Trusted: Coq kernel; the LTS abstraction (atomic steps, anonymous workers, FIFO lossless queues, faithful pickling); OS scheduling "
              "outside the model; the scenario driver.",
         technique="Coq proof (inductive invariant over all schedules) on a hand LTS model + schedule enumeration on the implementation",
@@ -53,7 +53,7 @@ CLAIMED = {
              "index ordering for double nulls; tiling (every index in exactly one block, any sizes); symmetric injective tables. The ladder and the tables are "
              "REGENERATED from mesh.py/tokamak.py each run and validated against the executed source; real equilibria + BoutMesh index code (makeRegions stubbed) "
              "and corpus grid files (corner coordinates, theta, chi, y-coord) are checked with the same oracle. Known findings: single-null index ordering (F3), "
-             "start_at_upper_outer with disconnected double null (F14).",
+             "start_at_upper_outer with disconnected double null (F14). The isolated X-point topology (TORPEX, four legs on the wall; table REGENERATED from torpex.py) has its own theorem: adjacency = BOUT++'s reading and ordered integers for every vector of leg sizes, and the executed ladder is run on random 4-leg size vectors against the extracted table. The oracle on real equilibria no longer depends on the table translation succeeding.",
         note="Trusted: Coq kernel; TopoLib.bout_up/ordered = hand-written reading of BOUT++'s manual (the spec); ast translator (validated); circular/TORPEX topologies "
              "covered by the grid-file oracle only (no table theorem); shared x-edge coincidence is C04's tolerance statement.",
         technique="Coq proof (case analysis + lia over all size vectors) on a translated model + translation validation + grid-file oracle",
@@ -63,7 +63,7 @@ CLAIMED = {
              "branches; erf branches under brentq's post-condition), prescribed end gradients with vanishing second derivative (Coquelicot), strict monotonicity of the "
              "cubic branches inside the code's own guard including its 1e-8 slack for both orderings, sign of the spacing in the erf branches, nesting under doubling of n, "
              "coincidence with the linear function at the switch. Translation validated against the real function; the same properties, segment sharing, limits and dx "
-             "are checked on the implementation for every topology (incl. a perturbed connected double null) and on corpus grids.",
+             "are checked on the implementation for every topology (incl. a perturbed connected double null) and on corpus grids. Continuity in the parameters is swept: geometric sweeps of the end-gradient ratio 0.3..6 (step 0.4 %) through every switch between closed forms, second differences of all faces below 2e-3 of the psi range (observed 2e-5).",
         note="Trusted: Coq kernel + Reals/Coquelicot axioms; erf contract (erf 0 = 0, odd, derivative) and brentq post-condition as Section hypotheses; translator; the sici "
              "(two-gradient decreasing) branch is oracle-only; trig-branch monotonicity proved only in the interior of its guard; binary64 plateaus of erf for extreme ratios are "
              "refused loudly by make1dGrid and only counted.",
@@ -91,7 +91,7 @@ CLAIMED = {
              "point are the flow points in the order of psi_vals, and after transposition and slicing all points sharing a poloidal index lie on ONE integral "
              "curve through skeleton point ps+2j (any sizes). Checked on the implementation: followPerpendicular vs a closed-form curved flow at rtol 1e-10; "
              "equilibrium.f_R/f_Z/Bp vs an independent spline in boxes of several aspect ratios; every orthogonal corpus grid vs an independent DOP853 "
-             "re-integration (threshold 2e-5 m, observed <= 5e-7 m); g12=g13=g_12=g_13=0.",
+             "re-integration (threshold 2e-5 m, observed <= 5e-7 m); g12=g13=g_12=g_13=0. The radial segments of one equilibrium region continue ONE radial grid line across the separatrix: their x-faces and corners on the shared flux surface are compared on every corpus grid (observed <= 6e-8 m).",
         note="Trusted: Coq kernel; hand model + fingerprints; the ODE-solver contract is monitored (independent re-integration), the second-order alignment "
              "statement is a consequence observed, not proved; dct-interpolated grids are skipped by the re-integration.",
         category="proof", technique="Coq proof on a hand model + independent re-integration oracle", design="6/C04"),
@@ -108,7 +108,7 @@ CLAIMED = {
         text="Coq theorems: dphidy (REGENERATED from geometry2) = hy*Bt/(Bp*R) = bpsign * d(zShift)/dy; continuity of the hand-over at every join when each region's "
              "increments start at 0; for every tokamak table the periodic chain consists of core regions only (jump location). On every corpus grid: dphidy and "
              "ShiftTorsion formulas exactly at every location, zShift increments vs Simpson's rule with the grid's own arc lengths, zero at the chain start, continuity at "
-             "joins, ShiftAngle = once round all regions of the periodic chain, ShiftAngle finite exactly on closed surfaces.",
+             "joins, ShiftAngle = once round all regions of the periodic chain, ShiftAngle finite exactly on closed surfaces. A corpus member with cap_Bp_ylow_xpoint=True and Bp > 0 (C06 only) checks that dphidy is computed from the Bpxy that is written.",
         note="Trusted: Coq kernel (+ Reals axioms for the dphidy identity); fingerprints of calcZShift; quadrature accuracy monitored (35% threshold away from X-point cells: "
              "catches wrong integrands/factors, not small errors); ShiftAngle = 2*pi*q for the circular case is not proved.",
         technique="Coq proof on translated formula + hand chain model + grid oracle", design="6/C06"),
@@ -117,7 +117,7 @@ CLAIMED = {
              "components of curl(B/B^2) of the axisymmetric field for any psi and fpol (is_derive statements under the interpolant contract); grad(x) = grad(psi); the vector "
              "dotted for the y-component is the grad(y) DUAL to the grid (perpendicular to e_x, grad(y).e_y = 1) with tan(beta) as calcBeta computes it, orthogonal and "
              "non-orthogonal branch, both signs of Bp. On every spline-interpolated corpus grid curl_bOverB_x/y/z and bxcv* are compared with an independent evaluation "
-             "(own splines, Richardson differences, grad(y) from the grid's displacements); the two curvature_type formulations are compared on lsn / lsn_neg.",
+             "(own splines, Richardson differences, grad(y) from the grid's displacements); the two curvature_type formulations are compared on lsn / lsn_neg. The ingredients of the curvature (second derivatives of psi, dB*/d*, fpolprime, both interpolation methods, dR != dZ) are checked against Richardson differences in this check too, so that a wrong ingredient is reported with a concrete input.",
         note="Trusted: Coq kernel + Reals/Coquelicot axioms; interpolant contract (FITPACK derivative evaluators); translator (validated in C18's run); agreement of the x-y "
              "formulation is checked by normalised correlation at one resolution (sign/scale), not by a convergence study; dct-interpolated grids skipped by the grid oracle.",
         technique="Coq proof (Coquelicot auto_derive + field) on translated formulas + independent grid oracle", design="6/C07"),
@@ -126,7 +126,7 @@ CLAIMED = {
              "partial derivative of the __call__ evaluator and the mixed evaluator is both d/dZ of ddR and d/dR of ddZ; every field helper (Bp_R ... dBdZ, REGENERATED from "
              "equilibrium.py) is the partial derivative of its primitive under the interpolant contract; div B = 0; f.grad(psi) = 1; TokamakEquilibrium.fpolprime is the "
              "derivative of fpol for either direction of psi1D. On real TokamakEquilibrium objects (both methods, dR != dZ, both psi1D directions, non-constant fpol): every "
-             "exposed function vs Richardson differences of its primitive, div B, node reproduction, scalar/array/MultiLocationArray arguments; translation validation.",
+             "exposed function vs Richardson differences of its primitive, div B, node reproduction, scalar/array/MultiLocationArray arguments; translation validation. Field functions are called with MultiLocationArray arguments in which all or only some locations are set (10 subsets): every location that is set gets the function's value.",
         note="Trusted: Coq kernel + Reals/Coquelicot axioms; FITPACK's dx/dy evaluators and scipy's dct are contracts monitored numerically; interpolation error vs the analytic "
              "function is observed only.",
         technique="Coq proof (Coquelicot) on translated formulas + finite-difference oracle on the implementation", design="6/C18"),
@@ -148,7 +148,7 @@ CLAIMED = {
              "exactly what a mesh built from scratch with the last settings shows.  Second theorem: for every history of PsiContour method calls (effect table regenerated from the class) "
              "the cached distance list / FineContour are never stale.  Correspondence: real non-orthogonal BoutMesh objects driven through histories (GUI flow, partial settings dicts, "
              "returning to earlier settings, geometry() twice, no calculateRZ, non-nonorthogonal keys mixed in; thorough: random histories incl. double null) and compared field by field "
-             "with cached fresh builds.",
+             "with cached fresh builds. The build-time skeleton is modelled as a function of the options: a regenerated flag states that getSfuncFixedSpacing grids the separatrix with the orthogonal spacing parameters in every non-orthogonal method (false on the pinned tree for 'poloidal_orthogonal_combined': finding F24, fixed); a history with that method is part of the oracle.",
         note="Trusted: Coq kernel (no axioms); the numerical kernels (OptionsFactory.create, regrid+refine, derive) are Section variables whose functional dependence is the contract "
              "monitored by the fresh-build comparison at 5e-7 m; translate/regrid.py.",
         technique="Coq proof by induction over operation histories on a hand model selected by regenerated source facts + history correspondence with fresh builds", design="6/C15"),
@@ -159,7 +159,7 @@ CLAIMED = {
              "under Bt reversal (parity lemma per component); the sign decision is invariant under reflection with y reversed; the connection tables of upper single / double null are the "
              "reflected tables of the lower ones, the connected double null is self-mirror (vm_compute on the generated finite tables); single-null branch-cut integers reflect.  Oracles on "
              "pairs of complete grids: mirror pairs region by region (R, -Z, bpsign, 30 field magnitudes at 1e-8 m / 2e-6), reversal pairs (every output field up to the expected sign), "
-             "options vs directly transformed inputs (identical).",
+             "options vs directly transformed inputs (identical). Reflection exchanges the two ends of every region: the four blending-range expressions of combineSfuncs (REGENERATED) are proved symmetric under lower <-> upper with *_inner inside and *_outer outside the separatrix, and the metamorphic range-parameter oracle of C10 runs here on lsn and usn.",
         note="Trusted: Coq kernel + Reals axioms; translators; that contour following is deterministic in its inputs is what the pair comparison monitors.  The radial grid line through "
              "an X-point is compared at 5e-4 m (each region starts slightly off the X-point and the join takes the upper region's values: documented in fillRZ).",
         technique="Coq proofs on translated formulas and generated finite tables + pairwise grid oracle", design="6/C16"),
@@ -171,7 +171,7 @@ CLAIMED = {
              "are strictly increasing; f(L, kN, kN_norm, k i) = f(L, N, N_norm, i) (every coarse face is a face of the refined grid); combineSfuncs' normalised weights form a convex "
              "combination, exact where the blended functions agree; a list passing the distance guard is strictly increasing.  Oracles: the real constructors on a real EquilibriumRegion with "
              "random parameters over all region kinds (end values, guard-cell continuation, end gradients, doubled resolution, translation validation at 1e-11 L), _checkMonotonic on crafted "
-             "functions; corpus grids: poloidal order, radial segments share the separatrix contour, end points under redistribution, ny doubling.",
+             "functions; corpus grids: poloidal order, radial segments share the separatrix contour, end points under redistribution, ny doubling. The normalisation N_norm = N_norm_prefactor*ny_total is REGENERATED from all four sites (getSfuncFixedSpacing sqrt / monotonic, combineSfuncs, getSfuncFixedPerpSpacing) and proved identical; region-level oracles on real regions with N_norm_prefactor 0.5/1/2: wrapper = constructor with that N_norm, end gradients of fixed / perpendicular / combined functions scale exactly like 1/prefactor; the blending ranges of combineSfuncs depend on the *_range_inner options only inside, *_range_outer only outside the separatrix, at both ends of a region.",
         note="Trusted: Coq kernel + Reals/Coquelicot axioms; translator translate/spacing.py (validated each run); brentq (contract); interior monotonicity of the sqrt form is NOT a theorem "
              "(false for some parameters) and is left to the run-time guards, whose call sites are fingerprinted and which are exercised on the real object; getSfuncFixedPerpSpacing's "
              "interpolation s_of_sperp is not modelled (covered by the regrid / corpus oracles).",
@@ -184,7 +184,7 @@ CLAIMED = {
              "sorted by (psi - psi_axis)^2; makeRegions keeps exactly the X-points below psinorm_sol and inside the wall in order; 1 -> single null, 2 -> double null, else refused.  "
              "Correspondence: a Python twin of the candidate search evaluating the translated Newton step feeds the candidate lists to the model (vm_compute); result = find_critical's.  Oracle: "
              "random sums of Gaussians (tilted, sub-grid positions, 4 resolutions, both signs) against an independent multi-start Newton on the analytic function; TokamakEquilibrium objects "
-             "with psinorm_sol either side of the secondary X-point and a wall that excludes an X-point.",
+             "with psinorm_sol either side of the secondary X-point and a wall that excludes an X-point. Cases include hills displaced diagonally (saddles tilted 45 degrees and asymmetric: psi_RR and psi_ZZ of the same sign, only the mixed derivative decides); findLegs is run on straight-line separatrices in a wall with an inclined side (closed-form strike points, legs swept to one side whose order at the wall is the reverse of their order at the X-point): 'inner' is the leg with the smaller strike-point radius.",
         note="Trusted: Coq kernel (+ Reals axioms for the first two theorems); FITPACK evaluators; translator.  Completeness of the candidate search (grid minima of Bp^2 + Newton "
              "convergence) is observed on the sampled functions, not proved; the monotonicity filter is modelled (keep_xpoint) and compared, its geometric meaning is not a theorem.",
         technique="Coq proofs on translated expressions and a computable hand model + vm_compute correspondence + independent-solver oracle", design="6/C19"),
@@ -194,7 +194,7 @@ CLAIMED = {
              "with a witness (finding F5).  Observed on the real code (not provable in a model: floating-point determinism of SciPy / netCDF / process scheduling): the real constructor on "
              "caller-owned arrays (arrays, wall list, three constructions); command-line round trips geqdsk -> hypnotoad-geqdsk (twice, two processes) -> hypnotoad-recreate-inputs -> "
              "hypnotoad-geqdsk for option sets incl. sign options, defaults that are expressions, an explicit None: every numeric variable bit-identical, embedded geqdsk byte-exact, embedded "
-             "YAML safe_load-able and complete against the three option factories, only grid_id / versions / file name differ; one interpreter building X, Y, Z, X.",
+             "YAML safe_load-able and complete against the three option factories, only grid_id / versions / file name differ; one interpreter building X, Y, Z, X. The round trip is also started from the Python API (options dict in memory with an explicit None) and regenerated through the command line; the one-interpreter history is W, X, Y, Z, X, W with W leaving spacing lengths to defaults that are expressions (non-orthogonal), comparing arrays AND evaluated option sets.",
         note="level proof for the side-effect / history part only; determinism and the provenance round trip are correspondence-style observations on the real entry points.  Trusted: Coq "
              "kernel + Reals axioms, translate/options.py, the hand model of numpy's in-place semantics.",
         technique="Coq proof on regenerated option pre-processing + end-to-end round trips through the real command-line entry points", design="6/C14", partial=True),
@@ -205,7 +205,7 @@ CLAIMED = {
              "reported crossing, which (C20 soundness) lies on the chord and on a wall edge, so the fraction is in [0,1] and the two ends' fractions add to 1.  Correspondence: the model "
              "evaluated by vm_compute on the walls and cells of real grids and of stub regions (700+ cells).  Oracles: every cell of every corpus grid against an independent ray-casting "
              "evaluation; the real calcPenaltyMask / wall normalisation on stub regions with spiky, U-shaped (lines from the reference point cross the wall twice) and off-axis walls in both "
-             "orientations; target points on the wall and on their flux surface, cell centres inside / guard cells outside (non-orthogonal), the wall written to the file.",
+             "orientations; target points on the wall and on their flux surface, cell centres inside / guard cells outside (non-orthogonal), the wall written to the file. A non-orthogonal member with a steeply inclined floor and a fine target spacing (contours must be extended to reach the wall, C11 only) is part of the target-on-wall oracle.",
         note="Trusted: Coq kernel (no axioms); the even-odd parity test is taken as the definition of inside (Jordan curve theorem not proved) under the contract that the reference point is "
              "inside the wall; target points are compared at a tolerance second order in the FineContour spacing (2.6e-6 m at Nfine = 100).",
         technique="Coq proofs on a computable exact-rational hand model + vm_compute correspondence + independent ray-casting oracle on grids and stub regions", design="6/C11"),
@@ -216,7 +216,7 @@ CLAIMED = {
              "numerical pipeline's behaviour on arbitrary inputs): a validity oracle (presence, shapes, finiteness except the documented NaNs and exactly there incl. chi against the region "
              "layout, hy, dy > 0, dx of one sign, no folded cell, no all-zero staggered copy) on every corpus grid; 20+ configurations around the envelope (an exception or a valid file, never "
              "a hang); command-line unknown / misspelt options, the script's own options, the shipped root-level option files; examples/tokamak and examples/torpex-xpoint; API option "
-             "consistency.",
+             "consistency. The chi NaN pattern is checked at the x- and y-faces too (finding F25, fixed); the envelope includes curvature_smoothing='smoothnl' with and without a toroidal field.",
         note="Known finding F23 (all-zero x-face copies of the non-orthogonal metric / curvature) is reported as KNOWN-FINDING lines.  The shipped root option files can only be checked for "
              "acceptance of their option set: the equilibria they were tuned for are git-LFS pointers.  Equilibrium-only options passed to BoutMesh with a changed value are ignored by design "
              "(unknown-key rejection lives in the scripts): observed, not failed.",
